@@ -91,6 +91,10 @@ def stepCore (s : State) (toks : List String) : State × String :=
     | some a, some b =>
       (s, match serialCmp a b with | some o => ordStr o | none => "none")
     | _, _ => (s, "bad-op")
+  | ["sadd", a, b] =>
+    match a.toNat?, b.toNat? with
+    | some a, some b => (s, toString ((a + b) % 4294967296))   -- `impl Add for SerialNumber`: wrapping
+    | _, _ => (s, "bad-op")
   | ["tag", h] =>
     match parseHex h with
     | some b => (s, toString (keyTag b))
@@ -121,7 +125,9 @@ def stepCore (s : State) (toks : List String) : State × String :=
     if op != "h" && op != "hold" then (s, "bad-op") else
     let r : Option (State × String) := do
       let clock ← now.toNat?; let inst ← inst.toNat?; let ck ← parseHex ck
-      let keys ← parseKeys keys
+      -- KEYS = `!`: every DNSKEY lookup fails (upstream error)
+      let netError := keys == "!"
+      let keys ← if netError then some [] else parseKeys keys
       -- all RRSIGs of the RRset in message order: `SIG|SIG|…`; oracle tables: one `ORC|ORC|…` (per key)
       -- for each RRSIG, separated by `,`
       let sigs ← (sg.splitOn "|").mapM parseSig
@@ -134,7 +140,7 @@ def stepCore (s : State) (toks : List String) : State × String :=
         (sigs.zip orcs).any fun (sj, os) =>
           sj.sig == sigBytes && (ks.zip os).any (fun (k', o) => k' == k && o == some tbs)
       let m : MultiRequest := { ck, dnskeys := keys, rrsigs := sigs, keyName := name.toLowercase,
-                                keyType := ty, records := recs, clock, inst }
+                                keyType := ty, records := recs, clock, inst, netError }
       let (req, idx0) := m.toRequest
       let (c', v, fresh) :=
         if op == "h" then validate oracle s.cfg s.cache req else validatePreFix oracle s.cfg s.cache req
@@ -144,7 +150,7 @@ def stepCore (s : State) (toks : List String) : State × String :=
         if idx == some j then s!"{showProof v.proof} {updatedTtl v sj.ttl}" else s!"N {sj.ttl}")
       let dev2 := !fresh && v.proof == .secure && s.past.any (fun r' => sameKeyOtherRdata r' req)
       pure ({ s with cache := c', past := if fresh then req :: s.past else s.past },
-        s!"{if idx0.isNone then "nolookup" else if fresh then "fresh" else "cached"} {showProof v.proof} {ttls} sig {sigOut} dev={showBool (outlivesSignature req v fresh)}{showBool dev2}")
+        s!"{if idx0.isNone then "nolookup" else if fresh then "fresh" else "cached"} {if recs.isEmpty then "-" else showProof v.proof} {ttls} sig {sigOut} dev={showBool (outlivesSignature req v fresh)}{showBool dev2}")
     r.getD (s, "bad-op")
   | _ => (s, "bad-op")
 
